@@ -52,6 +52,10 @@ def cases(tier, seed, prep=None):
     for i in range(n_random):
         out.append({"kind": "random", "seed": seed * 1000003 + 500000 + i, "ndrops": [1, 2, 3, 4, 5, 6],
                     "min_msgs": 1})
+    # one very large message in the session (0.3 - 2 MB)
+    for i in range(8 if tier == "quick" else 150):
+        out.append({"kind": "random", "seed": seed * 1000003 + 597000 + i, "ndrops": [0, 1, 2], "min_msgs": 1, "max_msgs": 3,
+                    "huge": [300000, 530000, 700000, 2000000][i % 4]})
     # other welcomes a conformant server may send (an empty one, one with a motd and a version hint), delegate API
     for i in range(60 if tier == "quick" else 2000):
         who = "ab"[i % 2]
